@@ -35,6 +35,8 @@ func c13Doc(t *rapid.T, tag string) map[string]any {
 			"a" + tag:  float64(rapid.IntRange(0, 4).Draw(t, "a") * 10),
 			"s" + tag:  rapid.SampledFrom([]string{"x", "y"}).Draw(t, "s"),
 			"n" + tag:  nested,
+			// a wide column: whole rows print to more than a hash block (64 bytes)
+			"pad" + tag: strings.Repeat(rapid.SampledFrom([]string{"p", "q"}).Draw(t, "pad"), 70),
 		})
 	}
 	us := []any{}
@@ -47,7 +49,7 @@ func c13Doc(t *rapid.T, tag string) map[string]any {
 // c13Query draws one query over a document built with the given tag.
 func c13Query(t *rapid.T, tag string, site int, readOnlyOnly bool) (q string, orderOpen bool, kind string, reader bool) {
 	kinds := []string{"filter", "subquery", "exists", "join", "pjoin", "group", "async", "order", "cte", "phash", "reader", "in_sub", "spinasync", "derived",
-		"range_reader", "range_from", "distinct_reader", "cte_async", "derived_async", "sub_async", "range_col", "pjoin_fail", "var_corunner"}
+		"range_reader", "range_from", "distinct_reader", "cte_async", "derived_async", "sub_async", "range_col", "pjoin_fail", "var_corunner", "join_using", "union", "distinct_wide", "distinct_wide_reader", "cte_join_using"}
 	kind = rapid.SampledFrom(kinds).Draw(t, "qkind")
 	k := rapid.IntRange(0, 4).Draw(t, "k") * 10
 	T, U, id, a, s, n, v, b := "t"+tag, "u"+tag, "id"+tag, "a"+tag, "s"+tag, "n"+tag, "v"+tag, "b"+tag
@@ -85,6 +87,19 @@ func c13Query(t *rapid.T, tag string, site int, readOnlyOnly bool) (q string, or
 		return fmt.Sprintf("WITH c%s AS (SELECT %s FROM %s WHERE %s >= %d) SELECT * FROM c%s", tag, id, T, a, k, tag), false, kind, false
 	case "derived":
 		return fmt.Sprintf("SELECT * FROM (SELECT %s, %s FROM %s WHERE %s >= %d) d", id, a, T, a, k), false, kind, false
+	case "join_using":
+		// the builder rewrites USING into an ON expression: two queries with the same text must not share that tree
+		jt := rapid.SampledFrom([]string{"JOIN", "LEFT JOIN", "PARALLEL JOIN", "HASH_JOIN"}).Draw(t, "ujt")
+		return fmt.Sprintf("SELECT * FROM %s x %s %s y USING (%s)", T, jt, U, id), true, kind, false
+	case "cte_join_using":
+		return fmt.Sprintf("WITH c%s AS (SELECT %s, ASYNC.fx(%d, %s) AS y FROM %s) SELECT * FROM c%s x JOIN %s y USING (%s)", tag, id, site, a, T, tag, U, id), true, kind, false
+	case "union":
+		return fmt.Sprintf("WITH c%s AS (SELECT %s FROM %s) SELECT %s FROM c%s UNION ALL SELECT %s FROM %s", tag, id, T, id, tag, id, U), true, kind, false
+	case "distinct_wide":
+		// whole rows print to far more than a hash block
+		return fmt.Sprintf("SELECT DISTINCT * FROM %s", T), false, kind, false
+	case "distinct_wide_reader":
+		return "distinct=>" + T, false, kind, true
 	case "pjoin_fail":
 		// ON fails (not boolean) for every left key: several workers fail at once
 		jt := rapid.SampledFrom([]string{"PARALLEL JOIN", "PARALLEL LEFT JOIN", "PARALLEL STRAIGHT_JOIN", "PARALLEL RIGHT JOIN"}).Draw(t, "pfjt")
@@ -117,7 +132,7 @@ func c13Query(t *rapid.T, tag string, site int, readOnlyOnly bool) (q string, or
 }
 
 func genC13(t *rapid.T) *Bundle {
-	config := rapid.SampledFrom([]string{"separate_cold", "separate_warm", "shared"}).Draw(t, "config")
+	config := rapid.SampledFrom([]string{"separate_cold", "separate_warm", "shared", "same_text"}).Draw(t, "config")
 	nclients := rapid.IntRange(2, 4).Draw(t, "nclients")
 	var docs []json.RawMessage
 	var clients []casefmt.Client
@@ -158,6 +173,22 @@ func genC13(t *rapid.T) *Bundle {
 		}
 		clients = append(clients, cl)
 		exp.OrderOpen = append(exp.OrderOpen, open)
+	}
+	if config == "same_text" {
+		// every client issues client 0's query texts, concurrently, on its own document
+		for ci := 1; ci < nclients; ci++ {
+			ops := make([]casefmt.Op, len(clients[0].Ops))
+			copy(ops, clients[0].Ops)
+			for i := range ops {
+				ops[i].Doc = ci
+				if ops[i].Vars >= 0 {
+					varsets = append(varsets, map[string]any{})
+					ops[i].Vars = len(varsets) - 1
+				}
+			}
+			clients[ci].Ops = ops
+			exp.OrderOpen[ci] = append([]bool{}, exp.OrderOpen[0]...)
+		}
 	}
 	if config == "separate_warm" {
 		// a prologue client-op warms the selector cache: client 0 runs every
